@@ -7,7 +7,7 @@
    ([SPeriodic], the [PPer] payload = the [periodic] closure, [SPCancel] =
    disposing the returned disposable), specification in Core/Periodic.v; tied to
    the code by the K1 correspondence of harness/props/C35.py. *)
-From RxVerif Require Import Base.Prelude Core.VTime Core.VTimeFacts Core.Periodic Core.PeriodicFacts Core.IntervalEmits.
+From RxVerif Require Import Base.Prelude Core.VTime Core.VTimeFacts Core.Periodic Core.PeriodicFacts Core.IntervalEmits Core.PeriodicLast.
 From RxVerif Require Core.NTPeriodicQuiet.
 From RxVerif Require Core.NewThreadPeriodic Core.NewThreadPeriodicFacts.
 Module NTP := RxVerif.Core.NewThreadPeriodic.
@@ -86,6 +86,29 @@ Theorem C35_stop_disposes : forall s pid st pi,
   In (EPDispose pid) (log (bstate (invoke s (PPer pid st)))).
 Proof. exact periodic_stop_disposes. Qed.
 Print Assumptions C35_stop_disposes.
+
+(* ... glued, for EVERY history (any other actions and subscriptions, any interleaving of
+   start / advance_to / advance_by / dispose, several subscriptions, any fuel, both clock
+   kinds): after a call that did not return a next state (log newest first: l1 is what happened
+   AFTER that call) the subscription is disposed and its action is NEVER called again *)
+Theorem C35_failed_call_is_last : forall c fuel c0 hs l1 l0 pid st k pi,
+  let s := state_of (run c fuel (init c0) hs) in
+  log s = l1 ++ ETick pid st k :: l0 -> nth_error (pers s) pid = Some pi ->
+  match plookup (p_fn pi) st with PNext _ _ _ => False | _ => True end ->
+  ticks_of pid l1 = [] /\ In (EPDispose pid) l1.
+Proof. exact failed_call_is_last. Qed.
+Print Assumptions C35_failed_call_is_last.
+
+(* hypotheses satisfiable: another action, two advance_to calls; the third call (state 2, clock 6)
+   raises; five events follow it in the log, none of them a call *)
+Example C35_witness_failed_call :
+  let f : ptable := ([(0, PNext [] 0%N 1); (1, PNext [] 0%N 2)], PRaise [] 1) in
+  let s := state_of (run (Cfg Numeric false) 20 (init 0)
+             [TDo (SSched (Abs 1) 0 [SNote 1]); TDo (SPeriodic 2 f 0); TAdvTo 5; TDo (SSched (Rel 1) 1 []); TAdvTo 20]) in
+  log s = firstn 5 (log s) ++ ETick 0 2 6 :: skipn 6 (log s) /\
+  option_map p_fn (nth_error (pers s) 0) = Some f /\ plookup f 2 = PRaise [] 1 /\
+  rev (ticks_of 0 (log s)) = [(0, 2); (1, 4); (2, 6)].
+Proof. vm_compute. repeat split; reflexivity. Qed.
 
 (* interval(p) / timer(p, p): schedule_periodic(p, count -> on_next(count); count + 1, 0).
    For every period p >= 0, every bound m, target t and table size n: the k-th call
